@@ -64,6 +64,22 @@ NewFams == {7, 8}          \* content families of inserted cells (both sides may
 
 CidsOf(nb) == {nb.cells[i].cid : i \in 1..Len(nb.cells)}
 
+\* runs of new cells: sequences of <<family, source variant>>; the cell identity is derived
+\* from the family so that the "same" new cell has the same id on both sides
+Runs == << << <<7, 0>> >>,
+           << <<8, 0>>, <<7, 0>> >>,
+           << <<8, 0>>, <<7, 1>> >>,
+           << <<21, 0>>, <<22, 0>>, <<7, 0>> >>,
+           << <<21, 0>>, <<22, 0>>, <<7, 1>> >>,
+           << <<22, 0>>, <<7, 1>>, <<8, 0>> >>,
+           << <<7, 1>>, <<21, 0>> >> >>
+RunKind(f) == IF f \in {7, 21} THEN "code" ELSE "markdown"
+RunCells(run) == [k \in 1..Len(run) |->
+                    Cell(40 + run[k][1], run[k][1], RunKind(run[k][1]), run[k][2],
+                         IF RunKind(run[k][1]) = "code" THEN 1 ELSE 0, 0,
+                         IF RunKind(run[k][1]) = "code" THEN 1 ELSE 0, 0)]
+RunCids(run) == {40 + run[k][1] : k \in 1..Len(run)}
+
 InsertAt(s, i, x) == SubSeq(s, 1, i - 1) \o <<x>> \o SubSeq(s, i, Len(s))   \* x becomes s[i]
 RemoveAt(s, i)    == SubSeq(s, 1, i - 1) \o SubSeq(s, i + 1, Len(s))
 
@@ -85,6 +101,12 @@ Edits(nb) ==
        p \in 1..(n + 1), f \in NewFams, k \in {"code", "markdown"}, s \in {0, 1} })
   \cup
   { <<[a |-> "Delete", pos |-> i], WithCells(RemoveAt(nb.cells, i))>> : i \in 1..n }
+  \cup
+  \* insert a run of several new cells at one position (concurrent insertion of runs of
+  \* different length whose tails are similar is the interesting case for the merger)
+  { <<[a |-> "InsertRun", pos |-> p, run |-> ri],
+      WithCells(SubSeq(nb.cells, 1, p - 1) \o RunCells(Runs[ri]) \o SubSeq(nb.cells, p, n))>> :
+      p \in 1..(n + 1), ri \in {q \in 1..Len(Runs) : RunCids(Runs[q]) \cap CidsOf(nb) = {}} }
   \cup
   { <<[a |-> "Move", from |-> i, to |-> j],
       WithCells(InsertAt(RemoveAt(nb.cells, i), j, nb.cells[i]))>> :
